@@ -285,9 +285,11 @@ fn p_fwd_asref_ext() {
     let (s0, id, a): (State, u64, u64) = kani::any();
     let b: u32 = kani::any();
     let which: bool = kani::any();
+    let sub: u8 = kani::any();
+    kani::assume(sub < 3);
     let mut sd = s0;
     let mut d = Imp { st: &mut sd, id };
-    let r1 = if which { *AsRef::<u64>::as_ref(&d) } else { d.m_mutarg(a, b) };
+    let r1 = if which { *AsRef::<u64>::as_ref(&d) } else { match sub { 0 => d.m_mutarg(a, b), 1 => d.m_where(a), _ => d.m_where_generic_bound(a) } };
     core::mem::forget(d);
     let mut st = s0;
     let imp = Imp { st: &mut st, id };
@@ -298,14 +300,15 @@ fn p_fwd_asref_ext() {
         r
     } else {
         let mut o = trait_obj!(imp as TM);
-        let r = o.m_mutarg(a, b);
+        let r = match sub { 0 => o.m_mutarg(a, b), 1 => o.m_where(a), _ => o.m_where_generic_bound(a) };
         core::mem::forget(o);
         r
     };
     assert!(r1 == r2, "C01 same result as the direct call (builtin external trait AsRef / default body with `mut` arguments)");
     assert!(st == sd, "C01 same instance state as after the direct call (AsRef / default body with `mut` arguments)");
     kani::cover!(which, "AsRef");
-    kani::cover!(!which, "mut args");
+    kani::cover!(!which && sub == 0, "mut args");
+    kani::cover!(!which && sub == 1, "where-clause method with an overridden default body");
 }
 //@ prefix=p_grp kind=property clause=group object and successful casts of it (cast!, as_ref!, as_mut!, into!): mandatory and optional trait methods satisfy the same contract, on the same instance
 #[kani::proof]
